@@ -56,3 +56,10 @@ Example C21_reset_nonvacuous :
       (mkSS [] [] (Some [99]) (Some []) (Some [mkHave [99] []]) [] false true None false false false) = (s, Some m)
     /\ m_have m = [mkHave [] []] /\ m_heads m = [11] /\ in_flight s = false.
 Proof. eexists. eexists. split; [vm_compute; reflexivity|]. cbn. auto. Qed.
+
+Example C21_reset_message_received_nonvacuous :
+  exists s', receive_sync_message (mkDoc [ex_c1] [])
+      (mkSS [11] [11] (Some [11]) (Some []) (Some []) [11] true true None false false false)
+      (reset_message (fun l : list N => l) []) = Ok (mkDoc [ex_c1] [], s') /\
+    sent_hashes s' = [] /\ last_sent_heads s' = [] /\ shared_heads s' = [].
+Proof. eexists. repeat split; vm_compute; reflexivity. Qed.
